@@ -889,6 +889,17 @@ class ProgGen(object):
                     '%s = lambda self=%s: self.%s' % (at2, self.name(), at),
                     '%s = lambda: lambda self: self.%s' % (at2, at)]))
             tps = r.choice(['', '', '', '', '', '[T]', '[T: %s]' % self.name(), '[T: (%s, %s), *Ts]' % (self.name(), self.name())])
+            if r.random() < 0.25:
+                # the base is bound on two paths to values of different kinds
+                bn = r.choice(['Base', 'x', 'B'])
+                a1, a2 = [r.choice(['A', 'B', 'A()', 'f', 'f()', 'm1', 'm1.A', 'None', 'x', 'a', 'object', 'C()']) for _ in (0, 1)]
+                pre = r.choice([[p + 'if %s:' % self.name(), p + '    %s = %s' % (bn, a1), p + 'else:', p + '    %s = %s' % (bn, a2)],
+                                [p + 'try:', p + '    from nosuch import %s' % bn, p + 'except ImportError:', p + '    %s = %s' % (bn, a1)],
+                                [p + '%s = %s' % (bn, a1), p + 'while %s:' % self.name(), p + '    %s = %s' % (bn, a2)]])
+                cn = r.choice(['A', 'B', 'C'])
+                body.append(q + 'def run(self): return self.%s' % r.choice(self.ATTRS))
+                return pre + [p + 'class %s%s(%s%s):' % (cn, tps, bn, r.choice(['', '', ', B', ', object']))] + body + \
+                    [p + r.choice(['%s.%s' % (cn, r.choice(self.ATTRS)), '%s().%s' % (cn, r.choice(self.ATTRS)), '%s().run().%s' % (cn, r.choice(self.ATTRS))])]
             return [p + 'class %s%s%s:' % (r.choice(['A', 'B', 'C', 'a']), tps, '(%s)' % bases if bases or r.random() < 0.2 else '')] + body
         return [p + 'match %s:' % self.name(), p + '    case %s:' % r.choice(['[a, b]', '{"k": x}', 'A(a=y)', 'x if x else y', '_', 'a.b']),
                 p + '        ' + self.expr()]
@@ -1148,6 +1159,28 @@ CYCLE_FILES = [
 ]
 
 
+def altbase_templates():
+    """Classes whose base is a name bound on two paths to values of different kinds; cursor on the
+    class, on an instance, on self inside a method and on the result of a method."""
+    pre = 'class P:\n    def hello(self): return 1\nclass F:\n    def world(self): return 2\ndef fn(): return P\nimport m1\n'
+    alts = [('F', 'P'), ('F', 'P()'), ('P', 'fn'), ('P', 'm1'), ('P', 'None'), ('P', 'nosuch'), ('Impl', 'P'), ('P()', 'F()'),
+            ('fn()', 'm1.A'), ('Impl', 'Impl2')]
+    out = []
+    for a1, a2 in alts:
+        base = pre + 'if x:\n    Impl = F\nelse:\n    Impl = P\nif y:\n    Impl2 = P()\nelse:\n    Impl2 = Impl\n'
+        base += 'if z:\n    Base = %s\nelse:\n    Base = %s\n' % (a1, a2)
+        cls = 'class W(Base):\n    def run(self):\n        self.count = 1\n        return self.%s\n'
+        out += [base + cls % 'hel|lo', base + cls % '|', base + cls % 'count' + 'W.|\n', base + cls % 'count' + 'W().|\n',
+                base + cls % 'count' + 'W().hel|lo\n', base + cls % 'count' + 'W().run().|\n']
+    out.append(pre + 'try:\n    from accel_does_not_exist import Base\nexcept ImportError:\n    Base = P\nclass W(Base):\n    def run(self):\n        return self.|\n')
+    out.append(pre + 'try:\n    from accel_does_not_exist import Base\nexcept ImportError:\n    Base = P()\nclass W(Base, F):\n    pass\nW().|\n')
+    out.append(pre + 'for i in x:\n    Base = P\n    Base = [Base, F][0]\nclass W(Base): pass\nW.|\n')
+    return [('altbase', t) for t in out]
+
+
+SPECIAL_CASES = SPECIAL_CASES + altbase_templates()
+
+
 def cursor_case(src):
     i = src.index('|')
     pre = src[:i]
@@ -1172,6 +1205,8 @@ class IGen(object):
         self.r = rng
         self.k = 0          # class-definition counter -> unique attribute names
         self.attrs = []
+        self.targeted = []  # queries aimed at the alternative-base classes of the main module
+        self.alt_bias = 0.0
 
     VARS = ['v0', 'v1', 'v2', 'v3']
     FUNCS = ['f0', 'f1', 'f2']
@@ -1232,13 +1267,80 @@ class IGen(object):
             out.append(p + '        return %s' % self.expr(0, True))
         return out
 
+    def alt_base(self, ind):
+        """A class statement whose base expression has several alternative values of different
+        kinds (class / instance / function / module / multiply bound name / None / undefined),
+        bound by if/else or by a try/except import fall-back; queries on the class, on an instance
+        and through self in a method."""
+        r = self.r
+        p = '    ' * ind
+        out = []
+        self.k += 1
+        k1 = self.k
+        self.k += 1
+        k2 = self.k
+        self.k += 1
+        k3 = self.k
+        c1, c2, t = r.sample(self.CLASSES, 3) if len(self.CLASSES) >= 3 else (self.CLASSES * 3)[:3]
+        out += [p + 'class %s:' % c1, p + '    a%d = (1)' % k1, p + '    def m%d(self):' % k1, p + '        return self.a%d' % k1]
+        out += [p + 'class %s(object):' % c2, p + '    a%d = %s' % (k2, c1)]
+        f = r.choice(self.FUNCS)
+        out += [p + 'def %s():' % f, p + '    return %s' % r.choice([c1, c1 + '()', c2])]
+        self.defined += [c1, c2, f]
+        self.attrs += ['a%d' % k1, 'm%d' % k1, 'a%d' % k2]
+
+        def alt():
+            kind = r.choice(['class', 'class', 'instance', 'function', 'module', 'multi', 'none', 'undefined', 'call', 'attr'])
+            if kind == 'class':
+                return [], r.choice([c1, c2])
+            if kind == 'instance':
+                return [], r.choice([c1, c2]) + '()'
+            if kind == 'function':
+                return [], f
+            if kind == 'module':
+                return [], (r.choice(self.mods) if self.mods else 'object')
+            if kind == 'none':
+                return [], r.choice(['None', '(1)', 'object'])
+            if kind == 'undefined':
+                return [], 'nosuch'
+            if kind == 'call':
+                return [], f + '()'
+            if kind == 'attr':
+                return [], '%s.a%d' % (c2, k2)
+            w = r.choice(self.VARS)
+            return [p + 'if v0:', p + '    %s = %s' % (w, r.choice([c1, c2])), p + 'else:', p + '    %s = %s' % (w, r.choice([c1 + '()', c2, f, '(1)']))], w
+
+        b = r.choice(self.VARS)
+        pre1, a1 = alt()
+        pre2, a2 = alt()
+        out += pre1 + pre2
+        form = r.random()
+        if form < 0.5:
+            out += [p + 'if v1:', p + '    %s = %s' % (b, a1), p + 'else:', p + '    %s = %s' % (b, a2)]
+        elif form < 0.8:
+            out += [p + 'try:', p + '    from nosuchmod import %s' % b, p + 'except ImportError:', p + '    %s = %s' % (b, a1)]
+            if r.random() < 0.5:
+                out += [p + 'if v1:', p + '    %s = %s' % (b, a2)]
+        else:
+            out += [p + '%s = %s' % (b, a1), p + 'for _i in ():', p + '    %s = %s' % (b, a2)]
+        extra = r.choice(['', '', ', ' + c2, ', object'])
+        out += [p + 'class %s(%s%s):' % (t, b, extra), p + '    a%d = %s' % (k3, r.choice(['(1)', c1, b])),
+                p + '    def m%d(self):' % k3, p + '        return self.%s' % r.choice(['a%d' % k1, 'a%d' % k2, 'a%d' % k3, 'm%d()' % k1])]
+        self.defined += [b, t]
+        self.attrs += ['a%d' % k3, 'm%d' % k3]
+        self.targeted += ['%s.a%d' % (t, k1), '%s().a%d' % (t, k1), '%s().m%d()' % (t, k3), '%s().m%d()' % (t, k1), '%s.a%d' % (t, k2),
+                          '%s().a%d' % (t, k3), '%s()' % t, b, '%s()' % b]
+        return out
+
     def stmts(self, ind, depth, n):
         r = self.r
         out = []
         for _ in range(n):
             k = r.random()
             p = '    ' * ind
-            if depth < 2 and k < 0.12:
+            if depth < 2 and k < 0.05 + self.alt_bias:
+                out += self.alt_base(ind)
+            elif depth < 2 and k < 0.12:
                 out += [p + 'for _i in ():'] + self.stmts(ind + 1, depth + 1, r.randint(1, 3))
             elif depth < 2 and k < 0.2:
                 out += [p + 'while v0:'] + self.stmts(ind + 1, depth + 1, r.randint(1, 3))
@@ -1284,8 +1386,12 @@ class IGen(object):
                 others.append('main')
             body = self.imports(nm, others) + self.stmts(0, 0, r.randint(1, 4))
             files[nm + '.py'] = '\n'.join(body) + '\n'
+        self.targeted = []
+        self.alt_bias = r.choice([0.0, 0.0, 0.25])
         body = self.imports('main', [o for o in names if r.random() < 0.9]) + self.stmts(0, 0, r.randint(2, 6))
         queries = [self.expr(0) for _ in range(r.randint(3, 6))]
+        r.shuffle(self.targeted)
+        queries += self.targeted[:6]
         src = '\n'.join(body + queries) + '\n'
         return files, src, len(queries)
 
